@@ -4,7 +4,9 @@
     a victim to another page's place (the seeded change C12-m1) and dropping a dirty victim must be refuted.
 (T) the same statement sequence under a grid of configurations (page size 4-64 KiB, cache 6-10000 pages, pool 1-8, min keys
     3-8, siblings 1-3), with and without checkpoints; every trace is validated against Db.tla, which has no configuration
-    variable: identical admissible results for every configuration."""
+    variable: identical admissible results for every configuration.
+(long run) axv soak: a table of ~47 pages scanned 2400 / 12000 times under a cache of 12-24 pages (more than 65536
+    evictions): the answer never changes, no scan fails."""
 import os
 import _dbprop, dbcheck, vlib
 from vlib import ToolError, run_tlc
@@ -28,7 +30,7 @@ def run(tier, seed):
     return _dbprop.run(PROP, tier, seed, [('cfg', 16, 160)],
         ['the specification of the store has no configuration variable: the same statement sequence (workload seed) is validated with the same admissible results under every configuration of the grid (page size, cache size, pool size, min keys, siblings), with and without checkpoints',
          'with caches below 32 pages multi-row UPDATE / DELETE are left out (finding SmallCacheFailsStatements: the statement fails when every frame is pinned - Cache.tla models that as a clean failure)'],
-        '8 configurations per workload; configs = (workload, configuration) runs validated', mc=None, nontrivial_key='configs', pre=_cache)
+        '8 configurations per workload; configs = (workload, configuration) runs validated', mc=None, nontrivial_key='configs', pre=_cache, post=lambda c, wd, tier, seed: dbcheck.soak_leg(c, wd, tier, seed, PROP))
 
 
 def replay(path, seed):
